@@ -265,6 +265,18 @@ pub fn check_node_id(ctx: &mut Ctx, obs: &Obs, site: &str, replay: impl Fn() -> 
             ctx.violate("C10", "stored-key-underivable", site, || "record carries no derivable public key".into(), &replay);
         }
     }
+    // the uncompressed form the accessor hands out is the x||y (or the 32-byte key) the id is the hash of
+    if let Some(pk) = stored {
+        let want_unc: Option<Vec<u8>> = match scheme {
+            Scheme::Secp => sig::secp_normalise(pk).map(|(_, u)| u.to_vec()),
+            _ => Some(pk.to_vec()),
+        };
+        if let Some(w) = want_unc {
+            if w != obs.pubkey_uncompressed {
+                ctx.violate("C10", "uncompressed-public-key-differs", site, || format!("encode_uncompressed() = {}", hex(&obs.pubkey_uncompressed)), &replay);
+            }
+        }
+    }
     if obs.node_id_from_pub != obs.node_id {
         ctx.violate("C10", "node-id-differs-from-public-key-accessor", site, || {
             format!("node_id {} from accessor {}", hex(&obs.node_id), hex(&obs.node_id_from_pub))
